@@ -1,6 +1,7 @@
 package rules
 
 import (
+	"fmt"
 	"go/ast"
 	"go/constant"
 	"go/token"
@@ -40,6 +41,8 @@ func c10(w *core.World, r *core.Report) {
 	r.Rule("R10.7", "key-position tables well-formed", 3)
 	ruleKeyTables(w, r)
 
+	r.Rule("R10.9", "rows of multi-key commands equal the published key specifications", 1)
+	ruleMultiKeySpecs(w, r)
 	r.Rule("R10.8", "what is forwarded is the filter's projection, not the decoded argument list (both incremental parsers)", 2)
 	ruleNothingInventedParser(w, r)
 	if f := fn(w, r, "(*syncer.RedisOutput).parseAofReplayUnits"); f != nil {
@@ -793,4 +796,133 @@ func ruleKeyTables(w *core.World, r *core.Report) {
 		}
 		r.Check(ok && n == 2, "CommandKeyIndexes/lowercase-lookup", f.Pos(), "both table lookups must use the lower-cased command name (lookups=%d)", n)
 	}
+}
+
+// ---------------------------------------------------------------- R10.9 multi-key commands: rows equal the published key specs
+
+// publishedKeySpecs are the (first, last, step) key specifications of the
+// Redis commands that address more than one key, as published by COMMAND
+// INFO / the command documentation. A row of the static table for one of
+// these commands must equal it: a row that names fewer keys lets the other
+// keys bypass key filters and slot checks.
+var publishedKeySpecs = map[string][3]int64{
+	"brpop": {1, -2, 1}, "blpop": {1, -2, 1}, "bzpopmin": {1, -2, 1}, "bzpopmax": {1, -2, 1},
+	"brpoplpush": {1, 2, 1}, "rpoplpush": {1, 2, 1}, "lmove": {1, 2, 1}, "blmove": {1, 2, 1},
+	"smove": {1, 2, 1}, "rename": {1, 2, 1}, "renamenx": {1, 2, 1}, "copy": {1, 2, 1},
+	"geosearchstore": {1, 2, 1}, "zrangestore": {1, 2, 1},
+	"sinterstore": {1, -1, 1}, "sunionstore": {1, -1, 1}, "sdiffstore": {1, -1, 1}, "pfmerge": {1, -1, 1},
+	"del": {1, -1, 1}, "unlink": {1, -1, 1},
+	"mset": {1, -1, 2}, "msetnx": {1, -1, 2},
+	"bitop": {2, -1, 1},
+}
+
+// keyPositionRows reads the literal of keyspec.commandKeyPositions: command -> (first, last, step).
+func keyPositionRows(w *core.World) (map[string][3]int64, token.Pos, bool) {
+	p := w.Pkg("pkg/redis/keyspec")
+	if p == nil {
+		return nil, token.NoPos, false
+	}
+	litOf := func(e ast.Expr) (*ast.CompositeLit, bool) {
+		switch x := e.(type) {
+		case *ast.CompositeLit:
+			return x, true
+		case *ast.Ident:
+			for _, f := range p.Syntax {
+				for _, d := range f.Decls {
+					gd, ok := d.(*ast.GenDecl)
+					if !ok {
+						continue
+					}
+					for _, sp := range gd.Specs {
+						vs, ok := sp.(*ast.ValueSpec)
+						if !ok {
+							continue
+						}
+						for i, n := range vs.Names {
+							if n.Name == x.Name && i < len(vs.Values) {
+								if cl, ok := vs.Values[i].(*ast.CompositeLit); ok {
+									return cl, true
+								}
+							}
+						}
+					}
+				}
+			}
+		}
+		return nil, false
+	}
+	rows := map[string][3]int64{}
+	var pos token.Pos
+	found := false
+	for _, f := range p.Syntax {
+		for _, d := range f.Decls {
+			gd, ok := d.(*ast.GenDecl)
+			if !ok {
+				continue
+			}
+			for _, sp := range gd.Specs {
+				vs, ok := sp.(*ast.ValueSpec)
+				if !ok || len(vs.Names) != 1 || vs.Names[0].Name != "commandKeyPositions" || len(vs.Values) != 1 {
+					continue
+				}
+				cl, ok := vs.Values[0].(*ast.CompositeLit)
+				if !ok {
+					continue
+				}
+				found, pos = true, cl.Pos()
+				for _, e := range cl.Elts {
+					kv, ok := e.(*ast.KeyValueExpr)
+					if !ok {
+						return nil, pos, false
+					}
+					kc := p.TypesInfo.Types[kv.Key].Value
+					if kc == nil {
+						return nil, pos, false
+					}
+					row, ok := litOf(kv.Value)
+					if !ok || len(row.Elts) != 3 {
+						return nil, pos, false
+					}
+					var vals [3]int64
+					for i, el := range row.Elts {
+						if kv2, isKV := el.(*ast.KeyValueExpr); isKV {
+							el = kv2.Value
+						}
+						v := p.TypesInfo.Types[el].Value
+						if v == nil {
+							return nil, pos, false
+						}
+						vals[i], _ = constant.Int64Val(v)
+					}
+					rows[strings.ToLower(constant.StringVal(kc))] = vals
+				}
+			}
+		}
+	}
+	return rows, pos, found
+}
+
+func ruleMultiKeySpecs(w *core.World, r *core.Report) {
+	rows, pos, ok := keyPositionRows(w)
+	if !ok {
+		r.Undecided("keyspec/multi-key-rows", pos, "the key position table is not a literal of constant rows")
+		return
+	}
+	var bad []string
+	n := 0
+	for cmd, want := range publishedKeySpecs {
+		got, present := rows[cmd]
+		if !present {
+			continue // resolved by an extractor or by COMMAND GETKEYS
+		}
+		n++
+		if got[1] == 0 {
+			got[1] = -1 // CommandKeyIndexes reads last == 0 as "the last argument", the same as -1
+		}
+		if got != want {
+			bad = append(bad, fmt.Sprintf("%s: table %v, published %v", cmd, got, want))
+		}
+	}
+	sort.Strings(bad)
+	r.Check(len(bad) == 0 && n >= 10, "keyspec/multi-key-rows", pos, "rows of commands that address several keys must equal the published key specification (first, last, step); a row naming fewer keys lets the remaining keys bypass the key/slot filters and the single-slot check: %v (rows compared: %d)", bad, n)
 }
